@@ -572,6 +572,11 @@ func driveC06(p *Pool, r *evid.Run) {
 		for _, pol := range []string{"run", "recv"} {
 			vs3 = append(vs3, Scn{Kind: "refrecv", Src: "v3", Cap: 64, Policy: pol, Script: all}, Scn{Kind: "refrecv", Src: "v3", Cap: 2, Policy: pol, Script: all, DiskSrc: true})
 		}
+		for _, good := range [][]int{{7, 8, 9}, {9, 0, 7}, {8}} {
+			for _, pol := range []string{"run", "recv"} {
+				vs3 = append(vs3, Scn{Kind: "refrecv", Src: "v1spec", Cap: 2, Policy: pol, Script: good, SelectAlts: true})
+			}
+		}
 		for _, bad := range [][]int{{5}, {6}, {0, 5}, {6, 2}} {
 			for _, pol := range []string{"run", "recv"} {
 				vs3 = append(vs3, Scn{Kind: "refrecv", Src: "v1spec", Cap: 2, Policy: pol, Script: bad, SelectAlts: true})
